@@ -92,8 +92,11 @@ int search_file_compare(const void* void_arg, const void* void_data)
 	ret = pread(f, arg->buffer, arg->read_size, arg->offset);
 	if (ret < 0 || (unsigned)ret != arg->read_size) {
 		/* LCOV_EXCL_START */
-		log_fatal("Error reading file '%s'. %s.\n", path, strerror(errno));
-		exit(EXIT_FAILURE);
+		/* the search is only an optimization, a file that cannot be read */
+		/* is not a match, like the damaged file itself that we are fixing */
+		log_error("Error reading file '%s'. %s.\n", path, strerror(errno));
+		close(f);
+		return -1;
 		/* LCOV_EXCL_STOP */
 	}
 
